@@ -14,7 +14,7 @@
 EXTENDS Integers, Sequences, FiniteSets, TLC
 
 CONSTANTS Targets,   \* target channel ids
-          EType,     \* [Targets -> {"int","string","any","ptr"}] element type of the target channel
+          EType,     \* [Targets -> {"int","string","any","ptr","nslice"}] element type of the target channel
           Cap        \* [Targets -> Nat] capacity of the target channel
 
 VARIABLES
@@ -30,7 +30,8 @@ vars == <<reg, inflight, queue, ctxc, hist>>
 Accepts(et, vt) ==
   CASE vt = "int"    -> et \in {"int", "any"}
     [] vt = "string" -> et \in {"string", "any"}
-    [] vt = "nil"    -> et \in {"any", "ptr"}
+    [] vt = "nil"    -> et \in {"any", "ptr", "nslice"}    \* the zero value of every element type that may be nil
+    [] vt = "slice"  -> et \in {"nslice", "any"}           \* an unnamed []int is assignable to a named slice type
     [] OTHER -> FALSE
 
 Init == reg = {} /\ inflight = <<>> /\ queue = [t \in Targets |-> <<>>] /\ ctxc = {} /\ hist = {}
